@@ -110,7 +110,7 @@ func concPhase(r *lib.Run, w, rounds int, emit func(kind string, args []string, 
 					atomic.AddInt64(&out.execs, 1)
 					if c.kind == "dhcp4" {
 						obs, wire := dhcpOnce(c.args[:14])
-						if lib.Hex(wire) == lib.Hex(lib.UnHex(c.args[14])) || obs == "panic" {
+						if lib.Hex(wire) == lib.Hex(unhex(c.args[14])) || obs == "panic" {
 							if obs != c.obs {
 								atomic.AddInt64(&out.mismatches, 1)
 								if atomic.AddInt64(&emitted, 1) <= 40 {
